@@ -162,7 +162,7 @@ def btNextMatchAnchored (prog : Prog) (inp : Input) (limit : Nat) (pos : Nat) (a
 /-- One `self.matcher.try_at_pos(self.input, &mut state, Forward::new())` of the PikeVM with the
 global counters. -/
 def pkAttempt (prog : Prog) (inp : Input) (limit : Nat) (init : Pk.State) (acc : Acc) : Pk.Outcome :=
-  Pk.runStates prog inp limit (limit - acc.steps) #[init] true acc.steps acc.peak
+  Pk.runStates prog inp limit (limit - acc.steps + 1) #[init] true acc.steps acc.peak
 
 def pkSuccess (prog : Prog) (inp : Input) (start : Nat) (st : Pk.State) (acc : Acc)
     (steps peak : Nat) : NextRes :=
